@@ -7,6 +7,8 @@
 // Case:  plen=<n> files=<a,b,..> done=<01..> seed=<n> | op ...
 //   J:p:<bits|->   peer p (0..3) connects from 127.0.0.(2+p), sends handshake + BITFIELD (or keep-alive for "-")
 //   H:p:i          peer p sends HAVE i (skipped if it already has it)
+//   B:p:n          the next n H/K/U messages of p are held back and delivered in ONE segment (message crossing)
+//   PC:p:k / PK:p:k  PIECE for a request the client already cancelled / that p's own CHOKE voided
 //   K:p / U:p      peer p sends CHOKE (and, being conforming, forgets the requests it held) / UNCHOKE
 //   P:p:k          peer p serves its (k mod n)-th oldest held request with a full PIECE
 //   PB:p:k         same, but only the PIECE header and half of the payload (until PE:p / X:p, p sends nothing else)
@@ -25,7 +27,7 @@
 //   F:i  piece i passed its hash check     DC:p  choked bucket dropped by its timer
 //   DU:p:n first n unordered dropped by timer     ST:p:t stall tick (t=1: current transfer stalled too)
 //   LI:p interest dropped (nothing to request)   QC:p / QU:p own download choke queue choked / unchoked the connection
-//   Z:p:<u>:<q>/<u>/<s>/<c>/<t>/<dint><dq>  private snapshot of p's RequestList (entries i.o.v.s ; '.' separated, ';' between)
+//   Z:p:<u>:<q>/<u>/<s>/<c>/<t>/<dint><dq><dun>  private snapshot of p's RequestList (entries i.o.v.s ; '.' separated, ';' between)
 //   Y:<aggr>:<active pieces a.b.c>:<completed bits>  private snapshot of Delegator / completed set
 #include "config.h"
 
@@ -50,7 +52,9 @@
 #include "torrent/data/file.h"
 #include "torrent/data/file_list.h"
 #include "torrent/data/transfer_list.h"
+#include "torrent/download/resource_manager.h"
 #include "torrent/exceptions.h"
+#include "torrent/torrent.h"
 #include "torrent/peer/connection_list.h"
 #include "torrent/peer/peer.h"
 
@@ -64,7 +68,7 @@ struct Ent { uint32_t i, o; bool valid; uint32_t stall; };
 struct Snap {
   bool present = false;
   bool unchoked = false;
-  bool dint = false, dq = false;   // m_down_interested, m_down_choke.queued()
+  bool dint = false, dq = false, dun = false;   // m_down_interested, m_down_choke.queued(), m_down_choke.unchoked()
   std::vector<Ent> b[4];
   bool has_t = false;
   Ent t{};
@@ -77,7 +81,7 @@ struct Snap {
       s << "/";
     }
     if (has_t) s << t.i << "." << t.o << "." << (t.valid ? 1 : 0) << "." << (t.stall ? 1 : 0);
-    s << "/" << (dint ? 1 : 0) << (dq ? 1 : 0);
+    s << "/" << (dint ? 1 : 0) << (dq ? 1 : 0) << (dun ? 1 : 0);
     return s.str();
   }
 };
@@ -88,6 +92,11 @@ struct ScriptPeer {
   bool choking = true;          // what this peer last told the client
   std::string bits;             // what it announced
   std::deque<Req> inq;          // requests it holds (conforming: cleared by its own CHOKE, reduced by CANCEL)
+  std::deque<Req> cancelled;    // requests the client cancelled (a PIECE already under way may still arrive: PC)
+  std::deque<Req> voided;       // requests voided by this peer's last CHOKE (a PIECE sent around the choke: PK)
+  int batch_left = 0;           // B:p:n -- the next n small messages (H/K/U) of this peer travel in ONE segment, later
+  std::string batch_bytes;
+  std::vector<std::string> batch_tokens;
   bool mid = false;             // between PB and PE
   Req midreq{};
   uint16_t port = 0;
@@ -95,6 +104,8 @@ struct ScriptPeer {
   std::string last_emitted;     // last Z string emitted
   uint32_t conn_no = 0;
   bool fresh = false;           // joined in this step: no previous snapshot of this connection
+  bool qc_unqueued = false;     // choked by our own queue (queued, uninterested), then taken out of the queue by the peer's CHOKE
+  bool qc_state = false;        // currently choked by our own queue
   bool nq_update = false;       // update_interested re-marked interest while the peer had us unchoked, without queueing
 };
 
@@ -141,6 +152,7 @@ Snap take_snap(Case& c, int p) {
   s.unchoked = pcb->m_down_unchoked;
   s.dint = pcb->m_down_interested;
   s.dq = pcb->m_down_choke.queued();
+  s.dun = pcb->m_down_choke.unchoked();
   auto& q = pcb->m_request_list.m_queues;
   for (int k = 0; k < 4; k++)
     for (auto it = q.begin(k); it != q.end(k); ++it) s.b[k].push_back(ent_of(*it));
@@ -220,13 +232,14 @@ void collect(Case& c, std::vector<std::string>& out) {
       else if (m.id == WirePeer::REQUEST && m.body.size() == 12) {
         Req r{m.u32(0), m.u32(4), m.u32(8)};
         out.push_back("R:" + ps + ":" + std::to_string(r.i) + ":" + std::to_string(r.o) + ":" + std::to_string(r.l));
-        sp.inq.push_back(r);
+        if (sp.choking) sp.voided.push_back(r);   // crossed with this peer's CHOKE: a conforming peer ignores it
+        else sp.inq.push_back(r);
         c.nreq++;
       } else if (m.id == WirePeer::CANCEL && m.body.size() == 12) {
         Req r{m.u32(0), m.u32(4), m.u32(8)};
         out.push_back("C:" + ps + ":" + std::to_string(r.i) + ":" + std::to_string(r.o) + ":" + std::to_string(r.l));
         for (auto it = sp.inq.begin(); it != sp.inq.end(); ++it)
-          if (*it == r) { sp.inq.erase(it); break; }
+          if (*it == r) { sp.cancelled.push_back(r); sp.inq.erase(it); break; }
         c.ncancel++;
       } else if (m.id == WirePeer::HAVE) c.nhave_out++;
       else c.nother++;
@@ -257,7 +270,10 @@ void timer_events(Case& c, int p, const Snap& a, const Snap& b, std::vector<std:
   if (stall) out.push_back("ST:" + ps + ":" + (t_stalled ? "1" : "0"));
 }
 
-void after_op(Case& c, const std::string& injected, bool timed) {
+void after_op(Case& c, const std::vector<std::string>& inj_list, bool timed) {
+  const std::string injected = inj_list.empty() ? std::string() : inj_list.back();
+  auto has_inj = [&](const std::string& t) { for (auto& x : inj_list) if (x == t) return true; return false; };
+  auto has_inj_prefix = [&](const std::string& t) { for (auto& x : inj_list) if (x.rfind(t, 0) == 0) return true; return false; };
   pump_all(c);
   settle_hash(c);
   pump_all(c);
@@ -284,24 +300,39 @@ void after_op(Case& c, const std::string& injected, bool timed) {
   }
   std::vector<std::string> sent;
   collect(c, sent);
-  // changes of the internal interest flag that no injected event explains (placed after the REQUESTs of this step:
-  // the delegate relation is then evaluated on the state that includes every request of the step)
+  // Decisions of the client's own download choke queue and the interest drop of fill_write_buffer, reconstructed
+  // from the private flags. QU (own unchoke) goes BEFORE the REQUESTs of this step (it gates them); QC / LI after
+  // them (the delegate relation is then evaluated on the state that includes every request of the step).
+  std::vector<std::string> before_sent;
   for (int p = 0; p < 4; p++) {
-    const Snap& a = c.peer[p].last;
+    Snap a = c.peer[p].last;
     const Snap& b = snaps[p];
-    if (!a.present || !b.present || c.peer[p].fresh) { c.peer[p].fresh = false; continue; }
+    if (!b.present) { c.peer[p].fresh = false; continue; }
+    if (!a.present || c.peer[p].fresh) { a = Snap(); a.present = true; a.dint = b.dint; }
+    c.peer[p].fresh = false;
     std::string ps = std::to_string(p);
-    bool explained = injected.rfind("W:", 0) == 0 || injected.rfind("H:" + ps + ":", 0) == 0;
-    bool was = a.dint || injected.rfind("W:", 0) == 0;   // update_interested raises the flag of every connection first
-    if (was && !b.dint) sent.push_back((b.dq ? "QC:" : "LI:") + ps);
-    else if (!a.dint && b.dint && !explained) sent.push_back("QU:" + ps);
+    bool choke_inj = has_inj("K:" + ps);
+    if (choke_inj) { a.dun = false; a.dq = false; }      // the peer's CHOKE takes the connection out of the queue first
+    bool was = a.dint || has_inj_prefix("W:");   // update_interested raises the flag of every connection first
+    // the connection leaves the download choke queue without a CHOKE from the peer only through the interest drop
+    // (possibly right after an own unchoke that raised the flag: queued+choked -> unchoked -> nothing to ask -> dropped)
+    bool li = !b.dint && !b.dq && (was || (a.dq && !choke_inj));
+    // interest is only dropped inside fill_write_buffer after should_request() held: the own unchoke came first
+    if (!a.dun && (b.dun || li)) before_sent.push_back("QU:" + ps);
+    if (b.dun || b.dint) { c.peer[p].qc_state = false; c.peer[p].qc_unqueued = false; }
+    if (choke_inj && c.peer[p].qc_state && !b.dint && !b.dq) { c.peer[p].qc_unqueued = true; c.peer[p].qc_state = false; }
+    if (!li && !b.dint && b.dq && !b.dun && ((a.dun && !choke_inj) || was)) c.peer[p].qc_state = true;
+    if (li) sent.push_back("LI:" + ps);
+    else if (a.dun && !b.dun && !choke_inj) sent.push_back("QC:" + ps);
+    else if (was && !b.dint && b.dq && !(a.dun && !b.dun)) sent.push_back("QC:" + ps);
   }
-  bool any = !injected.empty() || !timers.empty() || !tail.empty() || !sent.empty();
+  bool any = !inj_list.empty() || !timers.empty() || !tail.empty() || !sent.empty() || !before_sent.empty();
   if (any) {
     flush_quiet(c);
-    if (!injected.empty()) c.ev.push_back(injected);
+    for (auto& x : inj_list) c.ev.push_back(x);
     for (auto& s : timers) c.ev.push_back(s);
     for (auto& s : tail) c.ev.push_back(s);
+    for (auto& s : before_sent) c.ev.push_back(s);
     for (auto& s : sent) c.ev.push_back(s);
   }
   for (int p = 0; p < 4; p++) {
@@ -333,6 +364,12 @@ void after_op(Case& c, const std::string& injected, bool timed) {
   if (y != c.lastY) { flush_quiet(c); c.ev.push_back("Y:" + y); c.lastY = y; }
 }
 
+void after_op(Case& c, const std::string& injected, bool timed) {
+  std::vector<std::string> v;
+  if (!injected.empty()) v.push_back(injected);
+  after_op(c, v, timed);
+}
+
 void send(Case& c, int p, const std::string& bytes) {
   ScriptPeer& sp = c.peer[p];
   sp.w->tx_pending += bytes;
@@ -352,6 +389,31 @@ void advance(Case& c, int64_t secs) {
 }
 
 std::string req_str(const Req& r) { return std::to_string(r.i) + ":" + std::to_string(r.o) + ":" + std::to_string(r.l); }
+
+void flush_batch(Case& c, int p) {
+  ScriptPeer& sp = c.peer[p];
+  sp.batch_left = 0;
+  if (sp.batch_tokens.empty() || !sp.connected) { sp.batch_tokens.clear(); sp.batch_bytes.clear(); return; }
+  std::vector<std::string> toks;
+  toks.swap(sp.batch_tokens);
+  std::string bytes;
+  bytes.swap(sp.batch_bytes);
+  send(c, p, bytes);
+  after_op(c, toks, false);
+}
+
+// H/K/U either go out at once (lock step) or join the peer's pending batch
+void small_msg(Case& c, int p, const std::string& bytes, const std::string& token) {
+  ScriptPeer& sp = c.peer[p];
+  if (sp.batch_left > 0) {
+    sp.batch_bytes += bytes;
+    sp.batch_tokens.push_back(token);
+    if (--sp.batch_left == 0) flush_batch(c, p);
+    return;
+  }
+  send(c, p, bytes);
+  after_op(c, token, false);
+}
 
 bool do_op(Case& c, const std::string& o, std::string& err) {
   std::vector<std::string> f;
@@ -423,23 +485,38 @@ bool do_op(Case& c, const std::string& o, std::string& err) {
   }
   if (!sp.connected) return true;   // op on an absent peer: nothing
   if (sp.mid && k != "PE" && k != "X") return true;   // stream is inside a PIECE message
+  if (k == "B") {
+    // the next n small messages of p are delayed and delivered together (crossing with whatever the client does meanwhile)
+    if (sp.batch_left == 0 && sp.batch_tokens.empty()) sp.batch_left = std::max(1, std::min(8, std::stoi(f.at(2))));
+    return true;
+  }
+  if (k != "H" && k != "K" && k != "U" && (sp.batch_left > 0 || !sp.batch_tokens.empty())) flush_batch(c, p);
+  if (!sp.connected) return true;
   if (k == "H") {
     uint32_t i = std::stoul(f.at(2)) % c.T->piece_count();
     if (sp.bits[i] == '1') return true;
     sp.bits[i] = '1';
-    send(c, p, WirePeer::have(i));
-    after_op(c, "H:" + ps + ":" + std::to_string(i), false);
+    small_msg(c, p, WirePeer::have(i), "H:" + ps + ":" + std::to_string(i));
   } else if (k == "K") {
     if (sp.choking) return true;
     sp.choking = true;
+    sp.voided.clear();
+    for (auto& r : sp.inq) sp.voided.push_back(r);
     sp.inq.clear();
-    send(c, p, WirePeer::choke());
-    after_op(c, "K:" + ps, false);
+    small_msg(c, p, WirePeer::choke(), "K:" + ps);
   } else if (k == "U") {
     if (!sp.choking) return true;
     sp.choking = false;
-    send(c, p, WirePeer::unchoke());
-    after_op(c, "U:" + ps, false);
+    small_msg(c, p, WirePeer::unchoke(), "U:" + ps);
+  } else if (k == "PC" || k == "PK") {
+    // a PIECE that crosses the client's CANCEL (PC) or that the peer sends for a request its own CHOKE voided (PK)
+    std::deque<Req>& dq = k == "PC" ? sp.cancelled : sp.voided;
+    if (dq.empty() || (k == "PC" && sp.choking)) return true;
+    size_t ix = std::stoul(f.at(2)) % dq.size();
+    Req r = dq[ix];
+    dq.erase(dq.begin() + ix);
+    send(c, p, WirePeer::piece(r.i, r.o, c.T->range(r.i, r.o, r.l)));
+    after_op(c, "P:" + ps + ":" + req_str(r), false);
   } else if (k == "P" || k == "PB") {
     if (sp.inq.empty() || sp.choking) return true;
     size_t ix = std::stoul(f.at(2)) % sp.inq.size();
@@ -468,6 +545,9 @@ bool do_op(Case& c, const std::string& o, std::string& err) {
     sp.w->close_all();
     sp.connected = false;
     sp.inq.clear();
+    sp.cancelled.clear();
+    sp.voided.clear();
+    sp.batch_left = 0; sp.batch_tokens.clear(); sp.batch_bytes.clear();
     sp.mid = false;
     pump_all(c);
     after_op(c, "X:" + ps, false);
@@ -537,7 +617,7 @@ bool do_op(Case& c, const std::string& o, std::string& err) {
           }
         d << "int" << (int)pcb->m_down_interested << ".unch" << (int)pcb->m_down_unchoked << ".dq" << (int)pcb->m_down_choke.queued()
           << ".nq" << (int)sp.nq_update << ".miss" << nmiss << ".listed" << nlisted << ".untouched" << nuntouched
-          << ".unheld" << valid_unheld << ".invalid" << invalid;
+          << ".unheld" << valid_unheld << ".invalid" << invalid << ".qcu" << (int)sp.qc_unqueued;
       }
       c.stuck = d.str();
     }
@@ -579,6 +659,8 @@ std::string run_case(Session& S, const std::string& line) {
   const std::string& done = kv["done"];
   for (size_t i = 0; i < done.size(); i++)
     if (done[i] != '1') spec.corrupt_pieces.push_back((uint32_t)i);
+  // ResourceManager::max_download_unchoked (0 = unlimited): the setting is global, so it is set for every case
+  torrent::resource_manager()->set_max_download_unchoked(kv.count("dslots") ? std::stoul(kv["dslots"]) : 0);
   srandom(spec.content_seed * 7919u + 17u);   // ChunkSelector uses random(): make a case independent of its shard
   c.T = S.add_torrent(spec);
   if (c.T->completed_bits() != done) return "ERR:hashcheck " + c.T->completed_bits();
@@ -592,6 +674,7 @@ std::string run_case(Session& S, const std::string& line) {
     if (!do_op(c, o, err)) break;
     if (c.ev.size() > 6000) { err = "ERR:trace-too-long"; break; }
   }
+  for (int p = 0; p < 4; p++) if (c.peer[p].connected) flush_batch(c, p);
   flush_quiet(c);
   std::string qd = "-";
   for (auto& e : c.ev) if (e.rfind("QD:", 0) == 0) qd = e.substr(3);
